@@ -50,14 +50,7 @@ type verifAttacher struct{ f File }
 func (a *verifAttacher) Attach() (File, error) { return a.f, nil }
 
 // verifNewConn builds a connState like Server.Handle does, without transport.
-func verifNewConn(s *Server) *connState {
-	return &connState{
-		server: s,
-		fids:   make(map[fid]*fidRef),
-		tags:   make(map[tag]chan struct{}),
-		t:      nil,
-		r:      nil,
-	}
-}
+// verifNewConn (the connState of a fresh connection) is generated on every run
+// from the source of (*Server).Handle: engine/sym/gen.go.
 
 var verifLog = ulog.Null
